@@ -835,7 +835,9 @@ struct Driver {
       Slot& s = slot(si);
       if (s.kind != 1 && s.kind != 2) return;
       uint8_t* base = (uint8_t*)(s.kind == 1 ? s.p : (op["view"].s() == "rw" ? s.dm.rw : s.dm.rx));
-      size_t off = size_t(op["off"].i()), n = op["n"].i() > 0 ? size_t(op["n"].i()) : s.n - off;
+      size_t off = size_t(op["off"].i());
+      if (off >= s.n) return;
+      size_t n = op["n"].i() > 0 ? size_t(op["n"].i()) : s.n - off;
       Armed a;
       (void)VirtMem::protect(base + off, n, mkflags(op));
     }
